@@ -119,8 +119,13 @@ def check_inner(ctx, inner: FuncInfo):
         if st.as_const() != 1:
             ctx.undecided(rule, "loops", inner.loc(), "non-unit step")
             return
-        cons.append(Lin.of(v - subst(lo, ren)))
-        cons.append(Lin.of(subst(hi, ren) - 1 - v))
+        from ..affine import range_constraints
+
+        rc = range_constraints(v, subst(lo, ren), subst(hi, ren))
+        if rc is None:
+            ctx.undecided(rule, "loops", inner.loc(), f"loop bounds outside the affine fragment (with min / max): range({lo!r}, {hi!r})")
+            return
+        cons.extend(rc)
     guard_facts = []
     for c, v in apps[0].facts:
         from ..values import Cond as _C
@@ -307,7 +312,18 @@ def check_driver_c09(ctx, drv, gen, sel, inner):
             okr = isinstance(rv.items[0], ListV) and getattr(rv.items[0], "role", None) == "selected"
             okr = okr and isinstance(rv.items[1], Num) and arr_of(rv.items[1]) is found_roles["score"][0].data["arr"]
             a2 = arr_of(rv.items[2]) if isinstance(rv.items[2], Num) else None
-            okr = okr and a2 is not None and a2.shape is not None and len(a2.shape) == 2
+            is_table = a2 is not None and a2.shape is not None and len(a2.shape) == 2
+            # or the two inner tables stacked column-wise after the loop: column_stack((inner starts, inner ends))
+            m2 = rv.items[2]
+            ca2 = single_atom(m2.nf) if isinstance(m2, Num) and m2.nf is not None else None
+            is_stack = False
+            if ca2 is not None and ca2.kind == "app" and ca2.args[0] == "colstack" and isinstance(ca2.args[1], tuple) and len(ca2.args[1]) == 2:
+                ids = []
+                for part in ca2.args[1]:
+                    pa = single_atom(part) if isinstance(part, NF) else None
+                    ids.append(pa.args[0] if pa is not None and pa.kind == "arr" else None)
+                is_stack = ids[0] in [s_.data["arr"].aid for s_ in found_roles["inner-start"]] and ids[1] in [s_.data["arr"].aid for s_ in found_roles["inner-end"]]
+            okr = okr and (is_table or is_stack)
             okr = okr and isinstance(rv.items[3], Num) and nf_equal(rv.items[3].nf, app("ivl_starts")) and isinstance(rv.items[4], Num) and nf_equal(rv.items[4].nf, app("ivl_ends"))
         ctx.check(okr, "C09.f WIRING", "driver-result-order", drv.loc(), "the driver returns (anomalies, scores, maximisers, interval starts, interval ends) in that order", found=[valkey(x)[:30] for x in rv.items])
     # selector gets (scores, inner starts, inner ends, starts, ends, threshold)
